@@ -42,7 +42,7 @@ func traceLines(evs []Ev) []string {
 		lines[0] = "reset fixed=0"
 	}
 	for _, e := range evs {
-		if e.Kind == "hang" || e.Kind == "panic" {
+		if e.Kind == "hang" || e.Kind == "panic" || e.Kind == "beforearm" {
 			continue
 		}
 		if e.Kind == "quiet" {
